@@ -5,7 +5,8 @@ MonteCarloSampler_jit (numba jitclass) built from the same data through MonteCar
 (both from an un-started and from a started sampler).  After every event (start, trial energy,
 swap update, transition query, copy, batched Metropolis moves) the two must agree on E,
 deltaE_trial, transitions (same order, forbidden <-> +inf), occupancy, cluster counts and the
-occupied/unoccupied index arrays; MCmoves(batch) must equal the Metropolis rule applied move by
+occupied/unoccupied index arrays (every 8th event both are also compared with a third sampler
+freshly started on the occupation, R8); MCmoves(batch) must equal the Metropolis rule applied move by
 move with the same random numbers (decisions taken with the reference sampler's deltaE_trial).
 The same histories run three ways (case `env`): compiled with NUMBA_BOUNDSCHECK=1 (out-of-bounds
 index raises IndexError instead of touching foreign memory), compiled without it, and with
@@ -37,7 +38,7 @@ REQUIRED_OBS = {'histories:boundscheck': 10, 'histories:compiled': 10, 'historie
                 'eval:C35:E': 3000, 'eval:C35:deltaE_trial': 1000, 'eval:C35:transitions': 1000, 'eval:C35:forbidden=inf': 1000,
                 'eval:C35:index-arrays': 3000, 'eval:C35:clustercount': 3000, 'eval:C35:occ': 3000,
                 'eval:C35:metropolis-step': 1000, 'eval:C35:batch=stepwise': 60, 'eval:C35:copy-independent': 60,
-                'eval:C35:trial-is-pure': 1000, 'moves:accepted': 200, 'moves:rejected': 200, 'transitions:forbidden': 1000,
+                'eval:C35:trial-is-pure': 1000, 'eval:C35:E=fresh-reference': 300, 'moves:accepted': 200, 'moves:rejected': 200, 'transitions:forbidden': 1000,
                 'transitions:allowed': 1000, 'jit_from:unstarted': 6, 'jit_from:started': 6, 'variant:vac+jumps': 3, 'variant:vac': 3,
                 'variant:jumps': 3, 'variant:plain': 3, 'exhaustive_histories': 3, 'events:start': 100, 'events:swap': 1000}
 CASE_TIMEOUT = 600
@@ -68,8 +69,9 @@ def cases(tier, seed):
 class Pair:
     """reference sampler P and compiled sampler J in lockstep"""
 
-    def __init__(self, mon, P, J, desc):
-        self.mon, self.P, self.J, self.desc = mon, P, J, desc
+    def __init__(self, mon, P, J, desc, F=None):
+        self.mon, self.P, self.J, self.desc, self.F = mon, P, J, desc, F
+        self.ncompare = 0
         self.scale = sr.energy_scale(P)
         self.qscale = sr.barrier_scale(P)
         self.N = len(P.Ninteract)
@@ -98,6 +100,21 @@ class Pair:
             mon.check(ok, 'C35:index-arrays', lambda: 'Nocc=%d Nunocc=%d occupied_set=%s unoccupied_set=%s index=%s | %s' % (
                 Nocc, Nunocc, oset.tolist(), uset.tolist(), idx.tolist(), info()))
         self.transitions(what, J)
+        self.ncompare += 1
+        if self.F is not None and self.ncompare % 8 == 1:
+            self.fresh(what, J)
+
+    def fresh(self, what, J=None):
+        """R8: neither sampler may have drifted from a third sampler freshly started on the occupation
+        (a compiled sampler that shares arrays with the reference would corrupt both consistently)"""
+        mon, P, F = self.mon, self.P, self.F
+        J = self.J if J is None else J
+        info = lambda: '%s after %s occ=%s' % (self.desc, what, np.asarray(P.occ).tolist())
+        F.start(np.array(P.occ))
+        with mon.guard('C35:state'):
+            mon.close(J.E(), F.E(), 1e-9, 'C35:E=fresh-reference', info, scale=self.scale)
+            mon.check(np.array_equal(np.array(J.clustercount), F.clustercount) and np.array_equal(P.clustercount, F.clustercount),
+                      'C35:clustercount=fresh-reference', info)
 
     def transitions(self, what, J=None):
         mon, P = self.mon, self.P
@@ -240,7 +257,9 @@ def one_workload(mon, rng, which, cfg, variant, length, mode):
     vac = int(rng.choice(S.chemsites)) if variant.startswith('vac') else None
     jumps = variant.endswith('jumps')
     desc = str(dict(S.describe(), variant=variant, vacancy=vac, numba=mode))
-    P = S.sampler(vac, jumps, bool(rng.uniform() < 0.7))
+    ts = bool(rng.uniform() < 0.7)
+    P = S.sampler(vac, jumps, ts)
+    F = S.sampler(vac, jumps, ts)
     free = np.array([n for n in range(S.Nsites) if n != vac])
     mon.count('variant:' + variant)
     mon.seen('crystals', name)
@@ -251,7 +270,7 @@ def one_workload(mon, rng, which, cfg, variant, length, mode):
     full = np.ones(S.Nsites, dtype=int)
     if vac is not None: full[vac] = -1
     P.start(full.copy())
-    pair = Pair(mon, P, J, desc)
+    pair = Pair(mon, P, J, desc, F)
     pair.compare('construction from the un-started sampler (all occupied)')
     mon.count('jit_from:unstarted')
     if rng.uniform() < 0.5:
@@ -260,7 +279,7 @@ def one_workload(mon, rng, which, cfg, variant, length, mode):
         P.start(occ.copy())
         J2 = make_jit(mon, P)
         if J2 is not None:
-            pair = Pair(mon, P, J2, desc)
+            pair = Pair(mon, P, J2, desc, F)
             pair.compare('construction from the started sampler')
             mon.count('jit_from:started')
             # the un-started one must not share state with it
@@ -299,6 +318,8 @@ def one_workload(mon, rng, which, cfg, variant, length, mode):
             pair.compare(what + ' copy')
         else:
             pair.mcmoves(rng, int(rng.integers(1, 41)), float(rng.choice([0.05, 1., 20.])), what + ' MCmoves')
+        if step == length - 1:
+            pair.fresh(what + ' (end of history)')
         if old is not None and step % 7 == 0:
             with mon.guard('C35:state'):
                 mon.check(np.array_equal(np.array(old[0].occ), old[1]), 'C35:copy-independent', 'the original changed after its copy was used: ' + desc)
